@@ -26,7 +26,8 @@ TPop == /\ Ev("pop")
         /\ UNCHANGED <<kind, run>>
 TPopNone == Ev("pop_none") /\ devs' = (IF items = EmptyBag THEN devs ELSE Dev("C11 lost-items")) /\ items' = EmptyBag /\ UNCHANGED <<kind, run>>
 TClear == Ev("fclear") /\ items' = EmptyBag /\ devs' = LenDev(items', devs) /\ UNCHANGED <<kind, run>>
-Next == TReset \/ TPush \/ TPop \/ TPopNone \/ TClear
+TPanic == Ev("panic") /\ devs' = Dev("C11 panic") /\ UNCHANGED <<kind, items, run>>      \* the fringe panicked inside this operation; the run ends
+Next == TReset \/ TPush \/ TPop \/ TPopNone \/ TClear \/ TPanic
 Spec == Init /\ [][Next]_vars
 Report == l = Len(Rec) + 1 => PrintT(<<"RESULT", ToJson([total |-> Len(Rec), devs |-> devs])>>)
 Accepted == TLCGet("stats").diameter - 1 = Len(Rec)
